@@ -120,7 +120,7 @@ func RenderEv(c *TrieCase, st *trie.SlimTrie) Ev {
 				pan = fmt.Sprint(r)
 			}
 		}()
-		text = st.String()
+		watched(func() { text = st.String() })
 	}()
 	lines := []interface{}{}
 	bad := 0
@@ -280,7 +280,7 @@ func renderBigEv(c *TrieCase, st *trie.SlimTrie, loaded int, params Ev, prevText
 				pan = fmt.Sprint(r)
 			}
 		}()
-		text = st.String()
+		watched(func() { text = st.String() })
 	}()
 	ids := []int{}
 	leafvals := []int{}
